@@ -124,13 +124,8 @@ def run(chk):
     chk.coverage["slowest_decode_s"] = round(slowest, 4)
     chk.log(f"{len(cases)} decodes; implementation-side failures: {len(fails)}; slowest {slowest:.3f}s")
     chk.coverage["traces_validated_against_impl"] = len(cases)
-    mism = []
-    if broken is None or chk.corr_buildable(["Corr/Serde.vo"]):
-        try:
-            mism = common.run_cases("Serde", cases)
-        except common.CoqError as e:
-            broken = f"correspondence could not be evaluated: {e}"
-    report(chk, fails, mism, meta, broken, "Corr.Serde.check_case (model Py.PySerde)", "Props/C16.v")
+    mism, translated, broken = serde_run.run_serde_cases(chk, cases, broken)
+    report(chk, fails, mism, meta, broken, "Corr.Serde.check_case (model Py.PySerde)", "Props/C16.v", translated=translated)
     chk.assumptions += [
         "elapsed time is observed (each decode must finish within 2 s), not modelled; the model's loop bound is the capped count of Corr.Serde.gdec_capped",
         "array sizes >= 1 and integer widths >= 1 (element types of positive width): a dynamic array of zero-width elements is outside the model",
